@@ -267,7 +267,13 @@ func (g *sgen) stmt(depth int) {
 			g.block(depth, 1)
 			g.sb.WriteString(in[:len(in)-1] + l + ":\n" + in + g.probe() + "\n")
 		} else {
-			g.sb.WriteString(in[:len(in)-1] + l + ":\n" + in + g.probe() + "\n")
+			// the label stands on a probe or on an if chain of its own (a labelled if is an if)
+			g.sb.WriteString(in[:len(in)-1] + l + ":\n" + in)
+			if g.rng.Intn(2) == 0 {
+				g.ifChain(depth)
+			} else {
+				g.sb.WriteString(g.probe() + "\n")
+			}
 			g.block(depth, 1)
 			g.sb.WriteString(in + "if " + g.cond() + " {\n" + in + "\tgoto " + l + "\n" + in + "\t" + g.probe() + "\n" + in + "}\n")
 		}
@@ -557,8 +563,24 @@ func deadConfigs(rng *rand.Rand, pool []disturber) []deadConfig {
 		order = append([]string{}, c.Order[:at]...)
 		order = append(order, "helpers.go")
 		c.Order = append(order, c.Order[at:]...)
-		c.Kinds["helper-groups"] += len(hgroups)
-		c.Kinds["helper-name-clashes"] += hkStats(hgroups)
+		if i%2 == 0 {
+			// a second file of such groups, loaded right behind or right in front of the first one (the lanes are shared: the
+			// groups of the file loaded first come first)
+			h2src, h2groups := genHelperFile(rng, 3+rng.Intn(3), i*10+5)
+			c.Files["helpers2.go"] = h2src
+			at2 := at + rng.Intn(2)
+			order = append([]string{}, c.Order[:at2]...)
+			order = append(order, "helpers2.go")
+			c.Order = append(order, c.Order[at2:]...)
+			if at2 == at {
+				c.Helpers = append(h2groups, hgroups...)
+			} else {
+				c.Helpers = append(hgroups, h2groups...)
+			}
+			c.Kinds["helper-files-with-a-second-one"]++
+		}
+		c.Kinds["helper-groups"] += len(c.Helpers)
+		c.Kinds["helper-name-clashes"] += hkStats(c.Helpers)
 	}
 	return base
 }
